@@ -37,7 +37,7 @@ fn jn(ss: List[String]) -> String { ss.join(\"-\") }
 fn cat(a: List[char], b: List[char]) -> String { String.from_chars(a + b) }
 fn eqq(x: List[u64], y: List[u64]) -> bool { x == y }
 fn cc(x: List[u64], y: List[u64]) -> u64 { (x + y).len() }
-const SA: StringBuf = StringBuf.new();
+record B1 { a: u64, b: u64, c: u64, d: u64, e: u64, f: u64, g: u64, h: u64 }\nrecord B2 { a: B1, b: B1, c: B1, d: B1, e: B1, f: B1, g: B1, h: B1 }\nrecord B3 { a: B2, b: B2, c: B2, d: B2, e: B2, f: B2, g: B2, h: B2 }\nfn big(x: u64) -> u64 { let v1 = B1 { a: x, b: x, c: x, d: x, e: x, f: x, g: x, h: x }; let v2 = B2 { a: v1, b: v1, c: v1, d: v1, e: v1, f: v1, g: v1, h: v1 }; let v3 = B3 { a: v2, b: v2, c: v2, d: v2, e: v2, f: v2, g: v2, h: v2 }; let y = ye(9); v3.a.a.a + v3.h.h.h + v3.d.e.f }\nconst SA: StringBuf = StringBuf.new();
 const SB: StringBuf = StringBuf.new();
 fn sp() -> u64 { SA.push_char('x'); ye(20); SA.as_string().bytes().len() }
 fn sr() -> u64 { SA.as_string().bytes().len() }
@@ -57,6 +57,7 @@ enum Op {
     GetCall,      // get_function on the thread's own package (registry lock points), call, drop
     CompileCall,  // compile on the SHARED runtime, get, call, drop package and handle (hot reload)
     DropPkg,      // drop the package the shared handles came from
+    CallBig,      // a 4096-byte record (8 x 8 x 8 u64) live across a host call: a value that large may not live in anything shared between activations
     CompileConst, // compile a script whose CONSTANT INITIALISER calls a host function (a schedule point in the middle of a compilation), get, call
     FromChars,    // script: String.from_chars(shared List[char])
     SwapChars,    // Rust: swap(0, 2) on the shared List[char]
@@ -81,7 +82,8 @@ const MENU_PAIRS: [Op; 4] = [Op::EqAB, Op::EqBA, Op::CatAB, Op::CatBA];
 /// a `StringBuf` held in a script constant is interior-mutable state shared by every
 /// thread that calls into the package
 const MENU_SB: [Op; 4] = [Op::SbPush, Op::SbRead, Op::SbEqAB, Op::SbEqBA];
-const MENU_FULL: [Op; 9] = [
+const MENU_FULL: [Op; 10] = [
+    Op::CallBig,
     Op::CompileConst,
     Op::CallF,
     Op::CallT,
@@ -98,6 +100,7 @@ type Program = Vec<Vec<Op>>;
 #[derive(Clone)]
 struct Handles {
     f: TypedFunc<NoCtx, fn(i32) -> i32>,
+    big: TypedFunc<NoCtx, fn(u64) -> u64>,
     t: TypedFunc<NoCtx, fn(u64) -> u64>,
     s: TypedFunc<NoCtx, fn(i32) -> RotoString>,
     l: TypedFunc<NoCtx, fn(List<u64>, u64) -> u64>,
@@ -178,6 +181,7 @@ fn runtime() -> Runtime<NoCtx> {
 fn handles(pkg: &mut Package<NoCtx>) -> Result<Handles, String> {
     Ok(Handles {
         f: pkg.get_function("f").map_err(|e| e.to_string())?,
+        big: pkg.get_function("big").map_err(|e| e.to_string())?,
         t: pkg.get_function("t").map_err(|e| e.to_string())?,
         s: pkg.get_function("s").map_err(|e| e.to_string())?,
         l: pkg.get_function("l").map_err(|e| e.to_string())?,
@@ -213,6 +217,12 @@ fn run_op(
             let got = h.f.call(x);
             if got != 6 * x + 4 {
                 return Err(format!("f({x}) = {got}, expected {}", 6 * x + 4));
+            }
+        }
+        Op::CallBig => {
+            let got = h.big.call(x as u64 + 1000);
+            if got != 3 * (x as u64 + 1000) {
+                return Err(format!("big({}) = {got}, expected {}", x as u64 + 1000, 3 * (x as u64 + 1000)));
             }
         }
         Op::CallT => {
